@@ -245,6 +245,7 @@ func runC05(c *Ctx) {
 	}
 	c.looked("handlePacket")
 	pos := func(in ssa.Instruction) string { return p.Pos(in.Pos()) }
+	checkEffectErrorsReachTheReply(c, "R13")
 
 	// ---------- R1 request -> os table ----------
 	top, specific := requestTypes(c, "R1")
@@ -1441,4 +1442,144 @@ func checkRemoveAllLikeOs(c *Ctx, rule string, fn *ssa.Function, isPath func(ssa
 		c.check(!leaves, rule, "RemoveAll removes everything it can", p.Pos(l.head.Instrs[0].Pos()), "no return inside the loop over the entries; the first error is reported after it",
 			"RemoveAll returns from inside the loop over the entries: the first entry that cannot be removed ends the walk and the rest of the tree is left (os.RemoveAll removes everything it can and reports the first error)")
 	}
+}
+
+// checkEffectErrorsReachTheReply (C05.R13): "behaves like package os" includes failing when os fails.  In the os-backed
+// server (handlePacket, the respond methods and the Server helpers they call) the error result of every call that
+// changes the file system goes into the reply: it reaches the error argument of a statusFromError call of the same
+// function, or the function returns it (and its caller is held to the same).  An error that only reaches a comparison
+// or a log line is swallowed: the client is told OK where os reports a failure.
+func checkEffectErrorsReachTheReply(c *Ctx, rule string) {
+	p := c.P
+	sfe := p.Func("statusFromError")
+	if sfe == nil {
+		c.missing(rule, "statusFromError")
+		return
+	}
+	n := 0
+	ord := map[string]int{}
+	viaLiteral := map[*ssa.Function]bool{}
+	for _, fn := range p.LibFuncs() {
+		o := outermost(fn)
+		if o.Pkg != p.Sftp {
+			continue
+		}
+		isOS := fnName(o) == "handlePacket" || (o.Signature.Recv() != nil && typeName(o.Signature.Recv().Type()) == "Server") ||
+			(o.Name() == "respond" && o.Signature.Params().Len() == 1 && typeName(o.Signature.Params().At(0).Type()) == "Server")
+		if !isOS {
+			continue
+		}
+		for _, sk := range sinksIn(fn, nil) {
+			if sk.Eff != effMutate && sk.Eff != effOpen {
+				continue
+			}
+			call, ok := sk.In.(*ssa.Call)
+			if !ok {
+				continue // deferred or spawned: no result to report
+			}
+			res := call.Call.Signature().Results()
+			if res.Len() == 0 || !isErrorType(res.At(res.Len()-1).Type()) {
+				continue
+			}
+			// Close of a file that is being given up (the sweep, a failed open) has nobody to report to
+			if strings.HasSuffix(sk.ID, ".Close") {
+				continue
+			}
+			n++
+			k := fnName(fn) + ": error of " + sk.ID
+			ord[k]++
+			key := k
+			if ord[k] > 1 {
+				key = fmt.Sprintf("%s #%d", k, ord[k])
+			}
+			reaches := false
+			fromThis := func(v ssa.Value) bool {
+				for _, l := range leavesOf(v) {
+					if l.Kind == leafCallResult && l.CallIn == ssa.Instruction(call) {
+						return true
+					}
+				}
+				return false
+			}
+			family := append([]*ssa.Function{o}, allAnon(o)...)
+			for _, f := range family {
+				eachInstr(f, func(in ssa.Instruction) {
+					if cc := callOf(in); cc != nil && cc.StaticCallee() == sfe && len(cc.Args) == 2 && fromThis(cc.Args[1]) {
+						reaches = true
+					}
+					if r, ok := in.(*ssa.Return); ok && f == fn {
+						for _, x := range r.Results {
+							if isErrorType(x.Type()) && fromThis(x) {
+								reaches = true
+							}
+						}
+					}
+				})
+			}
+			c.check(reaches, rule, key, p.Pos(call.Pos()), "reaches statusFromError (or is returned)",
+				"the error of "+sk.ID+" does not reach the reply: when the operation fails the client is still answered as if it had succeeded")
+			if reaches && fn.Parent() != nil {
+				viaLiteral[o] = true // a function literal hands the error to whoever calls it
+			}
+		}
+	}
+	// where a literal returns the error of an effect, the calls through function values in that function are the next
+	// hop: their error result is held to the same
+	for o := range viaLiteral {
+		family := append([]*ssa.Function{o}, allAnon(o)...)
+		for _, fn := range family {
+			eachInstr(fn, func(in ssa.Instruction) {
+				call, ok := in.(*ssa.Call)
+				if !ok || call.Call.IsInvoke() || call.Call.StaticCallee() != nil || builtinName(&call.Call) != "" {
+					return
+				}
+				res := call.Call.Signature().Results()
+				if res.Len() == 0 || !isErrorType(res.At(res.Len()-1).Type()) {
+					return
+				}
+				n++
+				k := fnName(fn) + ": error of a step called through a function value"
+				ord[k]++
+				key := k
+				if ord[k] > 1 {
+					key = fmt.Sprintf("%s #%d", k, ord[k])
+				}
+				reaches := false
+				fromThis := func(v ssa.Value) bool {
+					for _, l := range leavesOf(v) {
+						if l.Kind == leafCallResult && l.CallIn == ssa.Instruction(call) {
+							return true
+						}
+					}
+					return false
+				}
+				for _, f := range family {
+					eachInstr(f, func(x ssa.Instruction) {
+						if cc := callOf(x); cc != nil && cc.StaticCallee() == sfe && len(cc.Args) == 2 && fromThis(cc.Args[1]) {
+							reaches = true
+						}
+						if r, ok := x.(*ssa.Return); ok && f == fn && fn.Parent() != nil {
+							for _, y := range r.Results {
+								if isErrorType(y.Type()) && fromThis(y) {
+									reaches = true
+								}
+							}
+						}
+					})
+				}
+				c.check(reaches, rule, key, p.Pos(call.Pos()), "reaches statusFromError",
+					"the error of a step that changes the file system (called through a function value) does not reach the reply: when the operation fails the client is still answered as if it had succeeded")
+			})
+		}
+	}
+	c.check(n >= 12, rule, "mutating os calls with an error result", "?", fmt.Sprintf("%d calls", n), fmt.Sprintf("only %d calls found", n))
+}
+
+func allAnon(fn *ssa.Function) []*ssa.Function {
+	var out []*ssa.Function
+	for _, a := range fn.AnonFuncs {
+		out = append(out, a)
+		out = append(out, allAnon(a)...)
+	}
+	return out
 }
